@@ -1,5 +1,10 @@
 package props
 
+import (
+	"encoding/binary"
+	"hash/crc32"
+)
+
 // A minimal bag-of-cells writer for harness-built cells (multi-root capable), written from the
 // boc format description; used to hand attacker-built containers to the library.
 
@@ -199,5 +204,17 @@ func bocFillCell(b []byte, pick, how int) []byte {
 	if (how/3)%2 == 0 && d2&1 == 1 {
 		out[o+1] = d2 + 1 // the same number of bytes, now all of them data: no completion tag
 	}
+	return out
+}
+
+// bocFixCRC recomputes the trailing CRC32-C of a container that carries one (flag 0x40 of the fifth byte), so that a
+// mutation inside reaches the cell parser instead of being stopped by the checksum.
+func bocFixCRC(b []byte) []byte {
+	if len(b) < 9 || b[4]&0x40 == 0 {
+		return b
+	}
+	out := append([]byte{}, b...)
+	sum := crc32.Checksum(out[:len(out)-4], crc32.MakeTable(crc32.Castagnoli))
+	binary.LittleEndian.PutUint32(out[len(out)-4:], sum)
 	return out
 }
